@@ -82,7 +82,13 @@ def h_kneighbors(ctx):
     qsh = tuple(cfg["qshape"])
     qe, qn = ctx.reals("qe", qsh), ctx.reals("qn", qsh)
     kn = vd.KNeighbors(k=k, reduction=_reduction(ctx, red))
-    kn.fit((e, n), d)
+    if cfg.get("dshape"):
+        dsh = tuple(cfg["dshape"])
+        d2 = d.reshape(dsh)
+        d2 = np.asfortranarray(d2) if cfg.get("layout_mem") == "F" else np.ascontiguousarray(d2.T).T
+        kn.fit((e.reshape(dsh), n.reshape(dsh)), d2)
+    else:
+        kn.fit((e, n), d)
     d2s = {}
     for idx in np.ndindex(*qsh):
         d2s[idx] = _general_position(ctx, qe[idx], qn[idx], pts)
@@ -225,6 +231,7 @@ def _cfg_kn(tier, seed):
         {"layout": "a4", "k": 3, "reduction": "median", "qshape": (1,)},
         {"layout": "c3", "k": 2, "reduction": "min", "qshape": (2, 1)},
         {"layout": "a4", "k": 4, "reduction": "max", "qshape": (1,)},
+        {"layout": "a4", "k": 1, "reduction": "mean", "qshape": (1,), "dshape": (2, 2), "layout_mem": "F"},
     ]
     if tier == "quick":
         return q
